@@ -448,7 +448,6 @@ func runWitnesses(seed int64, cw *CaseWriter, rep *lib.Report) {
 	finish(h, rep, "witness-index")
 }
 
-
 // ---------- scenario families: every refusal rule and every cell of the governance window, each run ----------
 
 func (h *Hist) setupBasic() {
@@ -496,14 +495,14 @@ func runRuleScenarios(seed int64, cw *CaseWriter, rep *lib.Report, r *lib.Rand) 
 	h.Exec(Op{Kind: "undelegate", A: tgt0 + 3, V: v1, Amt: fx(100)}) // leaves redelegation + unbonding, no delegation
 	h.Exec(Op{Kind: "block", Dt: 5 * sec})
 	for _, mode := range []string{"tx", "srv"} {
-		h.Exec(mig(val0, tgt0, mode))         // source is a validator operator
-		h.Exec(mig(0, ethVal, mode))          // target is a validator operator (eth key: the signature is valid)
-		h.Exec(mig(0, tgt0+1, mode))          // target has a delegation
-		h.Exec(mig(0, tgt0+2, mode))          // target has only an unbonding delegation
-		h.Exec(mig(0, tgt0+3, mode))          // target has redelegation/unbonding records
-		h.Exec(mig(noPub, tgt0, mode))        // account without public key
-		h.Exec(mig(oth0, tgt0, mode))         // eth_secp256k1 account / no account
-		h.Exec(mig(0, 0, mode))               // onto itself
+		h.Exec(mig(val0, tgt0, mode))  // source is a validator operator
+		h.Exec(mig(0, ethVal, mode))   // target is a validator operator (eth key: the signature is valid)
+		h.Exec(mig(0, tgt0+1, mode))   // target has a delegation
+		h.Exec(mig(0, tgt0+2, mode))   // target has only an unbonding delegation
+		h.Exec(mig(0, tgt0+3, mode))   // target has redelegation/unbonding records
+		h.Exec(mig(noPub, tgt0, mode)) // account without public key
+		h.Exec(mig(oth0, tgt0, mode))  // eth_secp256k1 account / no account
+		h.Exec(mig(0, 0, mode))        // onto itself
 	}
 	h.Exec(mig(0, val0+1, "srv")) // target validator operator with a cosmos key: only the msg server can be asked
 	// signature rule
